@@ -21,6 +21,8 @@
 //!   `AllRecordData` and `ZoneRecordData`, flat and parsed;
 //! * embedded names: every embedded name of every compact value replaced by
 //!   b., B., a.b., a.B. and the root, all pairs and triples within each group;
+//! * variable-length tails: for every compact value and every offset the rest
+//!   of the RDATA replaced by 28 tails of length 0..3 over {00, 01, 02, FF};
 //! * numeric fields: every window of 1/2/4/6 octets (outside embedded names)
 //!   of every compact value overwritten with the boundary values 0, 1,
 //!   2^(n-1)-1, 2^(n-1), 2^(n-1)+1, 2^n-1 of that width, all pairs and triples
@@ -822,18 +824,20 @@ struct RepSpec {
     pos: usize,
     /// split position (chain kind)
     split: Option<usize>,
+    /// second split position (chain of chains: labels[..s1] + labels[s1..s2] + rest)
+    split2: Option<usize>,
     flat: bool,
     /// the octets of the name are contiguous in memory (flat, uncompressed,
     /// or reached through bare pointers)
     contiguous: bool,
 }
 
-fn rep_specs(name: usize, labels: &[Vec<u8>]) -> Vec<RepSpec> {
+fn rep_specs(name: usize, labels: &[Vec<u8>], chain3: bool) -> Vec<RepSpec> {
     let k = labels.len();
     let mut out = Vec::new();
     let spec = |kind: String, msg: Vec<u8>, pos: usize, split: Option<usize>, flat: bool| {
         let contiguous = flat || kind == "parsed-uncompressed" || kind == "parsed-compressed-at-0" || kind == "parsed-double-pointer";
-        RepSpec { name, kind, msg, pos, split, flat, contiguous }
+        RepSpec { name, kind, msg, pos, split, split2: None, flat, contiguous }
     };
     out.push(spec("flat".into(), vec![], 0, None, true));
     // uncompressed inside a message, after a 12 octet header
@@ -879,45 +883,56 @@ fn rep_specs(name: usize, labels: &[Vec<u8>]) -> Vec<RepSpec> {
     for s in 0..=k {
         out.push(spec(format!("chain-split-at-{s}"), vec![], 0, Some(s), false));
     }
+    if chain3 {
+        // a chain of a chain of two relative names and an absolute name
+        for s1 in 0..=k {
+            for s2 in s1..=k {
+                let mut sp = spec(format!("chain-of-chains-split-at-{s1}-{s2}"), vec![], 0, Some(s1), false);
+                sp.split2 = Some(s2);
+                out.push(sp);
+            }
+        }
+    }
     out
 }
 
-type Ch = Chain<RelativeName<Vec<u8>>, Nm>;
+type RelN = RelativeName<Vec<u8>>;
+type Ch = Chain<RelN, Nm>;
+type Ch3 = Chain<Chain<RelN, RelN>, Nm>;
 
 enum Rep<'a> {
     Flat(Nm),
     Parsed(ParsedName<&'a [u8]>),
     Chain(Ch),
+    Chain3(Ch3),
+}
+
+/// Bind the concrete name type of one representation.
+macro_rules! one_rep {
+    ($x:expr, |$a:ident| $body:expr) => {
+        match $x {
+            Rep::Flat($a) => $body,
+            Rep::Parsed($a) => $body,
+            Rep::Chain($a) => $body,
+            Rep::Chain3($a) => $body,
+        }
+    };
 }
 
 /// ToName operations available for every pair of representations.
 macro_rules! any_pair {
     ($x:expr, $y:expr, |$a:ident, $b:ident| $body:expr) => {
-        match ($x, $y) {
-            (Rep::Flat($a), Rep::Flat($b)) => $body,
-            (Rep::Flat($a), Rep::Parsed($b)) => $body,
-            (Rep::Flat($a), Rep::Chain($b)) => $body,
-            (Rep::Parsed($a), Rep::Flat($b)) => $body,
-            (Rep::Parsed($a), Rep::Parsed($b)) => $body,
-            (Rep::Parsed($a), Rep::Chain($b)) => $body,
-            (Rep::Chain($a), Rep::Flat($b)) => $body,
-            (Rep::Chain($a), Rep::Parsed($b)) => $body,
-            (Rep::Chain($a), Rep::Chain($b)) => $body,
-        }
+        one_rep!($x, |$a| one_rep!($y, |$b| $body))
     };
 }
 
 /// Operator traits exist with `Name` and `ParsedName` on the left only.
 macro_rules! left_pair {
     ($x:expr, $y:expr, |$a:ident, $b:ident| $body:expr) => {
-        match ($x, $y) {
-            (Rep::Flat($a), Rep::Flat($b)) => Some($body),
-            (Rep::Flat($a), Rep::Parsed($b)) => Some($body),
-            (Rep::Flat($a), Rep::Chain($b)) => Some($body),
-            (Rep::Parsed($a), Rep::Flat($b)) => Some($body),
-            (Rep::Parsed($a), Rep::Parsed($b)) => Some($body),
-            (Rep::Parsed($a), Rep::Chain($b)) => Some($body),
-            (Rep::Chain(_), _) => None,
+        match $x {
+            Rep::Flat($a) => Some(one_rep!($y, |$b| $body)),
+            Rep::Parsed($a) => Some(one_rep!($y, |$b| $body)),
+            Rep::Chain(_) | Rep::Chain3(_) => None,
         }
     };
 }
@@ -945,15 +960,15 @@ fn observe_names(x: &Rep, y: &Rep) -> NameObs {
     NameObs { name_eq, name_cmp, composed, lc_composed, ops, ord }
 }
 
-fn dom_names(env: &Env, depth: usize, menu: usize, rep_triples: bool, dom_id: u64, only: Option<&[usize]>) {
+fn dom_names(env: &Env, depth: usize, menu: usize, chain3: bool, rep_triples: bool, dom_id: u64, only: Option<&[usize]>) {
     let names = name_items(depth, menu);
-    let specs_all: Vec<RepSpec> = names.iter().enumerate().flat_map(|(i, l)| rep_specs(i, l)).collect();
+    let specs_all: Vec<RepSpec> = names.iter().enumerate().flat_map(|(i, l)| rep_specs(i, l, chain3)).collect();
     let specs = restrict(specs_all, only);
     let n = specs.len();
     let dom = "name";
     let desc = |i: usize| {
         let s = &specs[i].1;
-        json!({"index": specs[i].0, "depth": depth, "menu": menu, "labels_hex": names[s.name].iter().map(|l| hex(l)).collect::<Vec<_>>(), "labels": names[s.name].iter().map(|l| String::from_utf8_lossy(l).to_string()).collect::<Vec<_>>(), "representation": s.kind, "message": hex(&s.msg), "pos": s.pos})
+        json!({"index": specs[i].0, "depth": depth, "menu": menu, "chain3": chain3, "labels_hex": names[s.name].iter().map(|l| hex(l)).collect::<Vec<_>>(), "labels": names[s.name].iter().map(|l| String::from_utf8_lossy(l).to_string()).collect::<Vec<_>>(), "representation": s.kind, "message": hex(&s.msg), "pos": s.pos})
     };
     // build the library values
     let mut reps: Vec<Rep> = Vec::with_capacity(n);
@@ -963,6 +978,11 @@ fn dom_names(env: &Env, depth: usize, menu: usize, rep_triples: bool, dom_id: u6
         let r: Result<Result<Rep, String>, String> = guard(|| {
             if s.flat {
                 Name::from_octets(name_wire(labels)).map(Rep::Flat).map_err(|e| e.to_string())
+            } else if let (Some(s1), Some(s2)) = (s.split, s.split2) {
+                let a = RelativeName::from_octets(labels_wire(&labels[..s1])).map_err(|e| e.to_string())?;
+                let b = RelativeName::from_octets(labels_wire(&labels[s1..s2])).map_err(|e| e.to_string())?;
+                let c = Name::from_octets(name_wire(&labels[s2..])).map_err(|e| e.to_string())?;
+                a.chain(b).map_err(|e| e.to_string())?.chain(c).map(Rep::Chain3).map_err(|e| e.to_string())
             } else if let Some(sp) = s.split {
                 let left = RelativeName::from_octets(labels_wire(&labels[..sp])).map_err(|e| e.to_string())?;
                 let right = Name::from_octets(name_wire(&labels[sp..])).map_err(|e| e.to_string())?;
@@ -1002,7 +1022,7 @@ fn dom_names(env: &Env, depth: usize, menu: usize, rep_triples: bool, dom_id: u6
             let h = guard(|| match r {
                 Rep::Flat(a) => Some(hrec(a)),
                 Rep::Parsed(a) => Some(hrec(a)),
-                Rep::Chain(_) => None,
+                Rep::Chain(_) | Rep::Chain3(_) => None,
             });
             match h {
                 Ok(h) => {
@@ -1114,6 +1134,181 @@ fn dom_names(env: &Env, depth: usize, menu: usize, rep_triples: bool, dom_id: u6
     let fdesc = |a: usize| desc(flat_idx[a]);
     let fcls = |_: usize, _: usize| "flat-vs-flat".to_string();
     check_laws(env, &LawCfg { dom: "name-flat", ord_name: "cmp", with_eq: true, triples: true, desc: &fdesc, pair_class: &fcls, hash_class: &fcls, only_prefix: None, tag: &format!("{dn}-flat"), sig_dom: "name-flat" }, &frel, Some(&fh));
+}
+
+//------------ relative names ------------------------------------------------------------
+
+type RCh = Chain<RelN, RelN>;
+type RCh3 = Chain<Chain<RelN, RelN>, RelN>;
+
+enum RRep {
+    Flat(RelN),
+    Chain(RCh),
+    Chain3(RCh3),
+}
+
+macro_rules! one_rrep {
+    ($x:expr, |$a:ident| $body:expr) => {
+        match $x {
+            RRep::Flat($a) => $body,
+            RRep::Chain($a) => $body,
+            RRep::Chain3($a) => $body,
+        }
+    };
+}
+
+struct RRepSpec {
+    name: usize,
+    kind: String,
+    s1: usize,
+    s2: Option<usize>,
+    flat: bool,
+}
+
+#[derive(Debug, Clone, Copy, PartialEq)]
+struct RelObs {
+    name_eq: bool,
+    name_cmp: i8,
+    /// ==, partial_cmp, <, <=, >, >= (left is a RelativeName)
+    ops: Option<(bool, Option<i8>, bool, bool, bool, bool)>,
+    /// Ord::cmp (both flat)
+    ord: Option<i8>,
+}
+
+/// Relative names: all label sequences of <= depth labels over the 5-label
+/// menu (including the empty name, so every label-prefix pair occurs), each
+/// as flat `RelativeName`, `Chain<Rel, Rel>` split at every boundary and
+/// `Chain<Chain<Rel, Rel>, Rel>` split at every pair of boundaries.
+fn dom_relnames(env: &Env, depth: usize, only: Option<&[usize]>) {
+    use domain::base::name::ToRelativeName;
+    let dom = "relname";
+    let names = name_items(depth, 5);
+    let mut specs_all = Vec::new();
+    for (i, l) in names.iter().enumerate() {
+        let k = l.len();
+        specs_all.push(RRepSpec { name: i, kind: "flat".into(), s1: 0, s2: None, flat: true });
+        for s in 0..=k {
+            specs_all.push(RRepSpec { name: i, kind: format!("chain-split-at-{s}"), s1: s, s2: None, flat: false });
+        }
+        for s1 in 0..=k {
+            for s2 in s1..=k {
+                specs_all.push(RRepSpec { name: i, kind: format!("chain-of-chains-split-at-{s1}-{s2}"), s1, s2: Some(s2), flat: false });
+            }
+        }
+    }
+    let specs = restrict(specs_all, only);
+    let n = specs.len();
+    let desc = |i: usize| {
+        let s = &specs[i].1;
+        json!({"index": specs[i].0, "labels_hex": names[s.name].iter().map(|l| hex(l)).collect::<Vec<_>>(), "labels": names[s.name].iter().map(|l| String::from_utf8_lossy(l).to_string()).collect::<Vec<_>>(), "representation": s.kind})
+    };
+    let mut reps: Vec<RRep> = Vec::with_capacity(n);
+    for (i, (_, s)) in specs.iter().enumerate() {
+        let labels = &names[s.name];
+        env.stats.eval();
+        let r: Result<Result<RRep, String>, String> = guard(|| {
+            let rel = |l: &[Vec<u8>]| RelativeName::from_octets(labels_wire(l)).map_err(|e| e.to_string());
+            if s.flat {
+                rel(labels).map(RRep::Flat)
+            } else if let Some(s2) = s.s2 {
+                rel(&labels[..s.s1])?.chain(rel(&labels[s.s1..s2])?).map_err(|e| e.to_string())?.chain(rel(&labels[s2..])?).map(RRep::Chain3).map_err(|e| e.to_string())
+            } else {
+                rel(&labels[..s.s1])?.chain(rel(&labels[s.s1..])?).map(RRep::Chain).map_err(|e| e.to_string())
+            }
+        });
+        match r {
+            Ok(Ok(rep)) => reps.push(rep),
+            other => {
+                let e = match other {
+                    Ok(Err(e)) => e,
+                    Err(e) => e,
+                    _ => unreachable!(),
+                };
+                env.viol("C04|relname|representation-cannot-be-built".into(), e, json!({"domain": dom, "items": [desc(i)]}));
+                reps.push(RRep::Flat(RelativeName::empty_vec()));
+            }
+        }
+    }
+    let hashes: Vec<Option<Hs>> = reps.iter().map(|r| if let RRep::Flat(a) = r { guard(|| hrec(a)).ok() } else { None }).collect();
+    let lcl: Vec<Vec<Vec<u8>>> = names.iter().map(|l| l.iter().rev().map(|x| lc(x)).collect()).collect();
+    let mut rel = Rel::new(n);
+    let rows: Vec<(Vec<bool>, Vec<i8>)> = (0..n)
+        .into_par_iter()
+        .map(|i| {
+            let mut re = vec![false; n];
+            let mut rc = vec![0i8; n];
+            let ni = specs[i].1.name;
+            for j in 0..n {
+                let nj = specs[j].1.name;
+                let case = || json!({"domain": dom, "items": [desc(i), desc(j)]});
+                let (x, y) = (&reps[i], &reps[j]);
+                let r = guard(|| {
+                    let (name_eq, name_cmp) = one_rrep!(x, |a| one_rrep!(y, |b| (a.name_eq(b), sgn(a.name_cmp(b)))));
+                    let ops = match x {
+                        RRep::Flat(a) => Some(one_rrep!(y, |b| (a == b, a.partial_cmp(b).map(sgn), a < b, a <= b, a > b, a >= b))),
+                        _ => None,
+                    };
+                    let ord = match (x, y) {
+                        (RRep::Flat(a), RRep::Flat(b)) => Some(sgn(a.cmp(b))),
+                        _ => None,
+                    };
+                    RelObs { name_eq, name_cmp, ops, ord }
+                });
+                env.stats.eval();
+                if i != j {
+                    env.stats.distinct(mix(12, specs[i].0, specs[j].0));
+                }
+                let o = match r {
+                    Ok(o) => o,
+                    Err(e) => {
+                        env.viol(format!("C04|relname|panic|{}", panic_class(&e)), e, case());
+                        continue;
+                    }
+                };
+                env.say(|| format!("relname[{}] ? relname[{}]: {:?}", specs[i].0, specs[j].0, o));
+                re[j] = o.name_eq;
+                rc[j] = o.name_cmp;
+                let kinds = || if specs[i].1.flat && specs[j].1.flat { "both-flat" } else { "not-both-flat" };
+                let ref_eq = lcl[ni] == lcl[nj];
+                let ref_cmp = sgn(lcl[ni].cmp(&lcl[nj]));
+                if o.name_eq != ref_eq {
+                    let k = if ref_eq { "equal-names-unequal" } else { "different-names-equal" };
+                    env.viol(format!("C04|relname|name_eq-vs-reference|{k}|{}", kinds()), format!("name_eq = {}", o.name_eq), case());
+                }
+                if o.name_cmp != ref_cmp {
+                    env.viol(format!("C04|relname|name_cmp-vs-rfc4034-6.1|{}", kinds()), format!("name_cmp = {}, canonical name order (relative to a common origin) says {}", ord_s(o.name_cmp), ord_s(ref_cmp)), case());
+                }
+                if let Some((eq, pc, lt, le, gt, ge)) = o.ops {
+                    let c = o.name_cmp;
+                    if eq != o.name_eq || pc != Some(c) || lt != (c < 0) || le != (c <= 0) || gt != (c > 0) || ge != (c >= 0) {
+                        env.viol(format!("C04|relname|operators-vs-name_eq/name_cmp|{}", kinds()), format!("{o:?}"), case());
+                    }
+                }
+                if let Some(c) = o.ord {
+                    if c != o.name_cmp {
+                        env.viol(format!("C04|relname|Ord::cmp-vs-name_cmp|{}", kinds()), format!("{o:?}"), case());
+                    }
+                }
+            }
+            (re, rc)
+        })
+        .collect();
+    for (i, (re, rc)) in rows.into_iter().enumerate() {
+        rel.eq[i * n..(i + 1) * n].copy_from_slice(&re);
+        rel.cmp[i * n..(i + 1) * n].copy_from_slice(&rc);
+    }
+    if n > 2 {
+        env.stats.sample(60, || json!({"domain": dom, "a": desc(n / 3), "b": desc(n / 2), "name_eq": rel.e(n / 3, n / 2), "name_cmp": ord_s(rel.c(n / 3, n / 2))}));
+    }
+    env.stats.count_n("relname:names", names.len() as u64);
+    let cls = |i: usize, j: usize| if specs[i].1.flat && specs[j].1.flat { "both-flat".to_string() } else { "not-both-flat".to_string() };
+    check_laws(env, &LawCfg { dom, ord_name: "name_cmp", with_eq: true, triples: true, desc: &desc, pair_class: &cls, hash_class: &cls, only_prefix: None, tag: "relname", sig_dom: "relname" }, &rel, None);
+    let flat_idx: Vec<usize> = (0..n).filter(|&i| specs[i].1.flat).collect();
+    let frel = sub_rel(&rel, &flat_idx);
+    let fh: Vec<Hs> = flat_idx.iter().map(|&i| hashes[i].clone().unwrap_or_default()).collect();
+    let fdesc = |a: usize| desc(flat_idx[a]);
+    let fcls = |_: usize, _: usize| "flat-vs-flat".to_string();
+    check_laws(env, &LawCfg { dom: "relname-flat", ord_name: "cmp", with_eq: true, triples: true, desc: &fdesc, pair_class: &fcls, hash_class: &fcls, only_prefix: None, tag: "relname-flat", sig_dom: "relname-flat" }, &frel, Some(&fh));
 }
 
 //------------ record data -------------------------------------------------------------
@@ -1969,6 +2164,35 @@ fn boundary_values(w: usize) -> Vec<Vec<u8>> {
 
 const FIELD_WIDTHS: [usize; 4] = [1, 2, 4, 6];
 
+/// Group kind "replace the tail" (encoded in the width slot).
+const TAIL: usize = 99;
+
+/// Tails of different lengths: all octet strings of length <= 2 over {00, 01,
+/// 02, FF} and seven of length 3 (01 and 02 double as one-octet length prefixes). The menu holds, for octet-wise order, a shorter
+/// string that is larger than a longer one (FF vs 01 00), one that is smaller
+/// (00 vs 01 00) and strict prefixes (01 vs 01 00 vs 01 00 00).
+fn tails() -> Vec<Vec<u8>> {
+    let a = [0x00u8, 0x01, 0x02, 0xFF];
+    let mut v = vec![vec![]];
+    for x in a {
+        v.push(vec![x]);
+    }
+    for x in a {
+        for y in a {
+            v.push(vec![x, y]);
+        }
+    }
+    v.push(vec![0x01, 0x00, 0x00]);
+    v.push(vec![0x00, 0xFF, 0xFF]);
+    v.push(vec![0xFF, 0x00, 0x00]);
+    v.push(vec![0x01, 0xFF, 0x01]);
+    // with 02 as a one-octet length prefix: two-octet fields
+    v.push(vec![0x02, 0x00, 0x00]);
+    v.push(vec![0x02, 0x01, 0xFF]);
+    v.push(vec![0x02, 0xFF, 0x00]);
+    v
+}
+
 /// Names put in place of every embedded name: the canonical name order
 /// (RFC 4034 6.1) of `b.` and `a.b.` is the opposite of the order of their
 /// wire octets, and `B.`/`a.B.` additionally differ from them in case only.
@@ -1995,6 +2219,16 @@ fn dom_fields(env: &Env, only: Option<(usize, usize, usize)>) {
                 continue;
             }
             groups.push((b, 0, k));
+        }
+        // width TAIL: everything from offset `off` on replaced by each tail
+        for off in 0..=v.wire.len() {
+            if v.names.iter().any(|&(o, l)| off > o && off < o + l) {
+                continue;
+            }
+            if only.map(|x| x != (b, TAIL, off)).unwrap_or(false) {
+                continue;
+            }
+            groups.push((b, TAIL, off));
         }
         for w in FIELD_WIDTHS {
             if v.wire.len() < w {
@@ -2033,6 +2267,13 @@ fn dom_fields(env: &Env, only: Option<(usize, usize, usize)>) {
                 let spans = v.names.iter().map(|&(so, sl)| if so == o { (so, nw.len()) } else if so > o { (so + nw.len() - l, sl) } else { (so, sl) }).collect();
                 cands.push((wire, spans));
             }
+        } else if w == TAIL {
+            let spans: Vec<(usize, usize)> = v.names.iter().cloned().filter(|&(o, _)| o < off).collect();
+            for tail in tails() {
+                let mut wire = v.wire[..off].to_vec();
+                wire.extend_from_slice(&tail);
+                cands.push((wire, spans.clone()));
+            }
         } else {
             for bv in boundary_values(w) {
                 let mut wire = v.wire.clone();
@@ -2066,7 +2307,7 @@ fn dom_fields(env: &Env, only: Option<(usize, usize, usize)>) {
         if n < 2 {
             return;
         }
-        let desc = |i: usize| json!({"type": t, "rtype": v.rtype, "base": v.desc, "window": {"offset": off, "width": w}, "rdata": hex(&items[i].0)});
+        let desc = |i: usize| json!({"type": t, "rtype": v.rtype, "base": v.desc, "window": {"offset": off, "width": w, "kind": if w == 0 { "embedded-name-substitution" } else if w == TAIL { "tail-replacement" } else { "field-window" }}, "rdata": hex(&items[i].0)});
         let case2 = |i: usize, j: usize| json!({"domain": dom, "group": {"base": b, "width": w, "offset": off}, "items": [desc(i), desc(j)]});
         let hashes: Vec<Option<Hs>> = items.iter().map(|x| guard(|| hrec(&x.1)).ok()).collect();
         let mut eqm = vec![false; n * n];
@@ -2197,8 +2438,10 @@ fn main() {
             "name" | "name-flat" => {
                 let depth = case["items"][0]["depth"].as_u64().unwrap_or(3) as usize;
                 let menu = case["items"][0]["menu"].as_u64().unwrap_or(5) as usize;
-                dom_names(&env, depth, menu, true, 3, Some(&idx))
+                let chain3 = case["items"][0]["chain3"].as_bool().unwrap_or(false);
+                dom_names(&env, depth, menu, chain3, true, 3, Some(&idx))
             }
+            "relname" | "relname-flat" => dom_relnames(&env, 3, Some(&idx)),
             "rdata" => dom_rdata(&env, Some(&idx), false),
             "zrdata" => dom_rdata(&env, Some(&idx), true),
             "record" => dom_records(&env, Some(&idx)),
@@ -2218,11 +2461,12 @@ fn main() {
     } else {
         phase("labels", &mut || dom_labels(&env, None));
         phase("charstrs", &mut || dom_charstrs(&env, None));
-        phase("names-depth3", &mut || dom_names(&env, 3, 5, true, 3, None));
-        phase("names-depth2-extended-menu", &mut || dom_names(&env, 2, 7, true, 9, None));
+        phase("names-depth3", &mut || dom_names(&env, 3, 5, false, true, 3, None));
+        phase("names-depth2-extended-menu", &mut || dom_names(&env, 2, 7, true, true, 9, None));
+        phase("relative-names", &mut || dom_relnames(&env, 3, None));
         if !quick {
-            phase("names-depth4", &mut || dom_names(&env, 4, 5, false, 4, None));
-            phase("names-depth3-extended-menu", &mut || dom_names(&env, 3, 7, false, 10, None));
+            phase("names-depth4", &mut || dom_names(&env, 4, 5, false, false, 4, None));
+            phase("names-depth3-extended-menu", &mut || dom_names(&env, 3, 7, true, false, 10, None));
         }
         phase("rdata", &mut || dom_rdata(&env, None, false));
         phase("zrdata", &mut || dom_rdata(&env, None, true));
@@ -2247,6 +2491,7 @@ fn main() {
                 "name_label_menu_extended": ["a", "A", "b", "a.b (one label)", "ab", "a\\001b (one label)", "\\001a (one label)"],
                 "name_depth_extended_menu": if quick { 2 } else { 3 },
                 "embedded_names": "every embedded name of every compact value replaced by each of b., B., a.b., a.B. and the root (canonical name order opposite to wire order; case twins); all ordered pairs and triples within each (value, name) group",
+                "variable_length_tails": "for every compact value and every offset (not inside an embedded name) the RDATA from that offset on replaced by each of 28 tails of length 0..3 over {00,01,02,FF} (shorter-but-larger, shorter-and-smaller, strict prefixes); all ordered pairs and triples within each (value, offset) group",
                 "numeric_fields": "every window of 1/2/4/6 octets outside embedded names of every compact value overwritten with 0, 1, 2^(n-1)-1, 2^(n-1), 2^(n-1)+1, 2^n-1; all ordered pairs and triples within each (value, width, offset) group",
                 "owners": ["a.", "A.", "b.a."], "classes": [1, 3], "ttls": [1, 3600],
                 "rdata": if quick { "rgen compact values + name-case twins + letter-case twins + Unknown-variant twins; records over compact values; plus per type all ordered pairs of the rgen quick-menu product for the types with at most 1000 values" } else { "as quick, records also over the twins; rgen quick-menu product for every type (53 564 values)" },
